@@ -78,7 +78,11 @@ def main(argv=None):
                 break
             # same path as replaying from the file: JSON round trip first
             case = common.dec(json.loads(json.dumps(common.enc(case), default=str)))
+            from . import bfs as _bfs
+
+            _bfs.globals_state().restore(())
             r1 = mod.replay(case)
+            _bfs.globals_state().restore(())
             r2 = mod.replay(case)
             if r1 != r2:
                 raise MachineryError(
